@@ -4,7 +4,7 @@
    param = v:<type> | r:<type>
    type  = Z K B W C T V | L(<type>) | S(<type>,...) | N(<type>)
    One output line per case:
-     IR <name> <ret> (<p>;...) | C <name> <ret> (<p>;...) | ABI <same 1/0> | PLAN <a>,... | RUN ok freed=<i>,.. slots=<n> temps=<n> result=<0/1> args=<..>  (or RUN error) *)
+     IR <name> <ret> (<p>;...) | C <name> <ret> (<p>;...) | ABI <same 1/0> | PLAN <a>,... | RUN ok freed=<i>,.. slots=<n> temps=<n> result=<0/1> args=<..>  (or RUN error) | IRI <name> <ret> (<p>;...)   (declaration in an importing module) *)
 open C18_model
 open Common
 
@@ -82,7 +82,7 @@ let () =
         { p_ty = parse_ty (String.sub p 2 (String.length p - 2)); p_ref = r }) ps in
       let s = { s_name = str_of_string name; s_params = params; s_ret = (if ret = "-" then None else Some (parse_ty ret)) } in
       let ks = if kinds = "-" then [] else List.init (String.length kinds) (fun i -> if kinds.[i] = 't' then ArgTemp else ArgVar) in
-      let ir = lower_sig s and c = c_sig s in
+      let ir = lower_sig s and c = c_sig s and iri = lower_sig_imported s in
       let plan = call_plan s ks in
       let runres =
         match run (init_state (temp_indices O params ks)) plan with
@@ -90,9 +90,10 @@ let () =
         | Some st ->
           Printf.sprintf "RUN ok freed=%s slots=%d temps=%d result=%d args=%s" (ints st.st_freed) (List.length st.st_slots)
             (List.length st.st_temps) (if st.st_result_owned then 1 else 0) (String.concat "," (List.map show_argval st.st_args)) in
-      Printf.printf "IR %s %s (%s) | C %s %s (%s) | ABI %d | PLAN %s | %s\n"
+      Printf.printf "IR %s %s (%s) | C %s %s (%s) | ABI %d | PLAN %s | %s | IRI %s %s (%s)\n"
         (string_of_str ir.is_name) (show_ll ir.is_ret) (String.concat ";" (List.map show_ll ir.is_params))
         (string_of_str c.cs_name) (show_c c.cs_ret) (String.concat ";" (List.map show_c c.cs_params))
-        (if abi_of_ir ir = abi_of_c c then 1 else 0)
+        (if abi_of_ir ir = abi_of_c c && abi_of_ir iri = abi_of_c c then 1 else 0)
         (String.concat "," (List.map show_action plan)) runres
+        (string_of_str iri.is_name) (show_ll iri.is_ret) (String.concat ";" (List.map show_ll iri.is_params))
     | _ -> ()) (read_lines stdin)
